@@ -17,7 +17,9 @@ RULE = ('bounded-operator formulas (one operator and 2-chains) x ALL equivalent 
         'in {1 s, 500 ms, 2 s, 250000 us} with the bounds scaled to it; x discrete offline / online / pastified online x all traces up to length n; every '
         'spelling must return the reference rho of the sample-count bounds (hence all spellings agree); bounds that are NOT a multiple of the period '
         '(every spelling again) must raise RTAMTException at parse() or at the first evaluation and nothing else; dense time: default unit x suffixes '
-        'with time-stamps rescaled consistently, compared with the dense reference; non-trivial = spelling that is not the plain default-unit one and whose reference output is not constant +-inf')
+        'with time-stamps rescaled consistently, compared with the dense reference; life layer: discrete offline objects configured and used under one of 5 configurations and then '
+        'switched to another with spec.unit / set_sampling_period (all ordered pairs, both setter orders): reference on the new sample counts, equality with a fresh object that spells the durations with explicit units, '
+        'and rejection when a bound stops being a multiple of the period; non-trivial = spelling that is not the plain default-unit one and whose reference output is not constant +-inf')
 ASSUMPTIONS = ['literals stay finite decimals; values V3/{-1,2}; the reference works in sample counts (discrete) / seconds (dense)']
 
 U = {'s': 10 ** 9, 'ms': 10 ** 6, 'us': 10 ** 3, 'ns': 1}
@@ -98,6 +100,8 @@ def shards(tier):
         out.append({'mode': 'reject', 'pi': pi})
     for i in range(len(collision_cases())):
         out.append({'mode': 'collide', 'i': i})
+    for i in range(len(life_formulas())):
+        out.append({'mode': 'life', 'life': i})
     return out
 
 
@@ -341,12 +345,84 @@ def ct_case(case, f=None):
     return None
 
 
+def life_formulas():
+    px, X = F.PX, F.X
+    return [('eventually', (0, 2), X), ('always', (1, 2), px), ('once', (0, 2), px), ('historically', (1, 2), X), ('until', (0, 1), px, ('pred', '<=', X, F.C1)),
+            ('and', ('eventually', (0, 1), px), ('once', (1, 2), X))]
+
+
+def life_case(case, obj=None):
+    """a discrete offline object that was configured and used under c0 and then switched to c1 with the public setters: its bounds denote the
+    durations they denote under c1 - the result is the reference on the sample counts of c1 and equals that of a FRESH object on which the
+    same durations are written with explicit units; if some bound is not a multiple of the period of c1 the evaluation must be rejected"""
+    from .. import reconf
+    f = F.from_json(case['formula'])
+    vs = case['vars']
+    c1, f1, spec = obj if obj is not None else reconf.lived_object('dt_off', f, case['suffix'], vs, case['life'])
+    w = case['trace']
+    n = len(next(iter(w.values())))
+    k, out = impl.outcome(impl.dt_evaluate, spec, w, reconf.times(c1, n))
+    if f1 is None:
+        if k == 'rtamt':
+            return None
+        return ('re-configured object (%s): some bound is not a multiple of the sampling period now, but evaluate() %s' %
+                (case['life'], ('returned %r' % ([q[1] for q in out],)) if k == 'ok' else 'raised %s instead of RTAMTException' % (out,)))
+    if k != 'ok':
+        return 're-configured object (%s): evaluate() raised %s' % (case['life'], out)
+    vals = [q[1] for q in out]
+    ref = refsem.ev(f1, w, n)
+    if not refsem.same_list(vals, ref):
+        return 're-configured object (%s): bounds now denote %s, evaluate() returns %r, reference %r' % (case['life'], F.pr(f1), vals, ref)
+    unit = case['suffix'] or reconf.CONFIGS[c1][0]
+    fresh = reconf.build('dt_off', 'out = ' + F.pr(f, bound=reconf.speller(unit)), vs, c1)
+    k2, out2 = impl.outcome(impl.dt_evaluate, fresh, w, reconf.times(c1, n))
+    if k2 != 'ok' or not refsem.same_list([q[1] for q in out2], vals):
+        return 're-configured object (%s) returns %r, a fresh object with the same durations written in %s returns %r' % (case['life'], vals, unit, out2)
+    return None
+
+
+def run_life(shard, tier, res, mod):
+    from .. import reconf
+    f = life_formulas()[shard['life']]
+    fj = F.to_json(f)
+    vs = sorted(F.fvars(f))
+    res.formulas += 1
+    for suffix in ('', 's', 'ms'):
+        text = 'out = ' + F.pr(f, bound=reconf.speller(suffix))
+        case0 = {'mode': 'life', 'formula': fj, 'vars': vs, 'suffix': suffix, 'spec': text}
+        for name, c1, f1, spec in reconf.lived_objects('dt_off', f, suffix, vs, res, mod, case0, configs='ABCDE', rejecting=True):
+            traces = list(F.traces(4 if tier == 'quick' else 5, F.V2, len(vs)))
+            if f1 is None:
+                traces = traces[::5]
+            elif F.has_op(f1, F.BIN_T) and F.max_bound(f1) > 100:
+                traces = traces[3::7]
+            for t in traces:
+                case = dict(case0, life=name, trace=F.trace_dict(t, vs))
+                res.evaluations += 1
+                msg = life_case(case, (c1, f1, spec))
+                if msg:
+                    res.violation(mod, case, msg)
+                    res.outcomes['re-configured object differs'] += 1
+                else:
+                    res.outcomes['rejected' if f1 is None else 'agree'] += 1
+                    res.flags['life_rejected' if f1 is None else 'life_cases'] += 1
+                    if f1 is not None:
+                        res.nontrivial += 1
+                res.digest(text, name, t, msg)
+    res.sample({'spec': text, 'lives': [l[0] for l in reconf.lives('ABCDE')][:4]}, 1)
+
+
 def run_shard(shard, tier, res):
     mod = sys.modules[__name__]
+    if shard['mode'] == 'life':
+        return run_life(shard, tier, res, mod)
     {'dt': run_dt, 'ct': run_ct, 'reject': run_reject, 'collide': run_collide}[shard['mode']](shard, tier, res, mod)
 
 
 def replay(case):
+    if case['mode'] == 'life':
+        m = life_case(case)
+        return [m] if m else []
     if case['mode'] == 'reject':
         m = reject_case(case)
         return [m] if m else []
@@ -380,4 +456,6 @@ def finalize(agg, outcomes, flags, tier):
         raise Broken('vacuous: only %d non-default spellings checked' % agg['nontrivial'])
     if not outcomes.get('rejected'):
         raise Broken('no non-multiple bound was rejected')
-    return {}
+    if flags.get('life_cases', 0) < 500 or flags.get('life_rejected', 0) < 50:
+        raise Broken('vacuous life layer: %r agreeing cases, %r rejections' % (flags.get('life_cases'), flags.get('life_rejected')))
+    return {'cases_on_reconfigured_objects': flags.get('life_cases', 0), 'rejections_on_reconfigured_objects': flags.get('life_rejected', 0)}
